@@ -27,7 +27,7 @@ func init() {
 type c18shared struct {
 	M, MT, SV, V, V2, MK *tensor.Dense
 	all                  []*tensor.Dense
-	fps                  []string
+	fps                  []uint64
 }
 
 func c18Setup() *c18shared {
@@ -43,7 +43,7 @@ func c18Setup() *c18shared {
 	s.MK = tensor.New(tensor.WithShape(4), tensor.WithBacking([]float64{4, 1, 3, 2}, []bool{false, true, false, false}))
 	s.all = []*tensor.Dense{s.M, s.MT, s.SV, s.V, s.V2, s.MK, root}
 	for _, t := range s.all {
-		s.fps = append(s.fps, atlas.Fingerprint(t))
+		s.fps = append(s.fps, tensor.VerifQuickHash(t))
 	}
 	return s
 }
@@ -51,7 +51,7 @@ func c18Setup() *c18shared {
 func (s *c18shared) check() string {
 	names := []string{"M", "MT", "SV", "V", "V2", "MK", "root(SV)"}
 	for i, t := range s.all {
-		if atlas.Fingerprint(t) != s.fps[i] {
+		if tensor.VerifQuickHash(t) != s.fps[i] {
 			return fmt.Sprintf("shared tensor %s was modified: now %s", names[i], atlas.MetaString(t))
 		}
 	}
@@ -181,18 +181,21 @@ func runC18(r *core.Run) {
 	}
 	quick := isQuick(r)
 	ops := c18Ops()
-	bound := 2
-	maxExec := 4000
+	bound := 1
+	hotBound := 2
+	maxExec := 3000
 	if !quick {
-		bound = 3
+		bound = 2
+		hotBound = 3
 		maxExec = 60000
 	}
-	r.SetBound("preemption_bound", bound)
+	r.SetBound("preemption_bound", fmt.Sprintf("%d for every program, %d for programs of two 'hot' operations (those that borrow/return pool slices or rewrite metadata: Dot, TensorMul, Sum, Concat, MultIter, New+Return, T+UT+Transpose)", bound, hotBound))
 	r.SetBound("threads", "2 (thorough: + selected triples)")
 	r.SetBound("alphabet", len(ops))
 	r.SetBound("max_executions_per_program", maxExec)
 	debug.SetGCPercent(-1)
 	defer debug.SetGCPercent(400)
+	runtime.GOMAXPROCS(1) // hand-offs between goroutines are fastest on one P
 	// sequential oracle: each op alone
 	solo := make([]string, len(ops))
 	for i, op := range ops {
@@ -200,24 +203,29 @@ func runC18(r *core.Run) {
 		s := c18Setup()
 		solo[i] = op.f(s)
 	}
-	type prog struct{ idx [][]int } // per thread: list of op indices
-	var progs []prog
-	for i := range ops {
-		for j := i; j < len(ops); j++ {
-			progs = append(progs, prog{[][]int{{i}, {j}}})
-		}
+	type prog struct {
+		idx [][]int // per thread: list of op indices
+		hot bool
 	}
-	// two-operation bodies for the operations that touch pools / metadata the most
+	var progs []prog
 	hot := []int{}
+	isHot := map[int]bool{}
 	for i, op := range ops {
 		switch op.name {
 		case "Dot(V,M)", "Dot(V2,MT)", "TensorMul(MT,M)", "Sum(M,0)", "private:New+Return", "private:T+UT+Transpose", "Concat(M,SV)", "MultIter(M,SV)":
 			hot = append(hot, i)
+			isHot[i] = true
 		}
 	}
+	for i := range ops {
+		for j := i; j < len(ops); j++ {
+			progs = append(progs, prog{[][]int{{i}, {j}}, isHot[i] && isHot[j]})
+		}
+	}
+	// two-operation bodies for the operations that touch pools / metadata the most
 	for _, i := range hot {
 		for _, j := range hot {
-			progs = append(progs, prog{[][]int{{i, j}, {j}}})
+			progs = append(progs, prog{[][]int{{i, j}, {j}}, false})
 		}
 	}
 	if !quick {
@@ -225,7 +233,7 @@ func runC18(r *core.Run) {
 			for _, j := range hot {
 				for _, k := range hot {
 					if i <= j && j <= k {
-						progs = append(progs, prog{[][]int{{i}, {j}, {k}}})
+						progs = append(progs, prog{[][]int{{i}, {j}, {k}}, false})
 					}
 				}
 			}
@@ -252,6 +260,7 @@ func runC18(r *core.Run) {
 		if r.ReplayCase != "" && id != r.ReplayCase {
 			continue
 		}
+		idh := core.H64(id)
 		r.Case(id, true, func() *core.Fail {
 			want := make([]string, len(p.idx))
 			for t, th := range p.idx {
@@ -280,7 +289,7 @@ func runC18(r *core.Run) {
 					}
 				}
 				return sched.Run(bodies, prefix, func(tid int, what string) string { return sh.check() }, func() uint64 {
-					return core.H64(id) ^ c18PoolHash()
+					return idh ^ tensor.VerifPoolHash()
 				})
 			}
 			check := func(x *sched.Exec) bool {
@@ -312,14 +321,18 @@ func runC18(r *core.Run) {
 				}
 				return fail == nil
 			}
-			ex := sched.NewExplorer(bound, maxExec, run, check)
+			b := bound
+			if p.hot {
+				b = hotBound
+			}
+			ex := sched.NewExplorer(b, maxExec, run, check)
 			ex.Explore(nil)
 			r.Traces += int64(ex.Executions)
 			r.Dim("executions_per_program", bucket(ex.Executions))
 			r.Dim("distinct_outcomes_per_program", fmt.Sprint(len(outcomes)))
 			if ex.Capped {
 				r.CapHit = true
-				r.Note(fmt.Sprintf("execution cap %d hit for program %s at preemption bound %d", maxExec, id, bound))
+				r.Note(fmt.Sprintf("execution cap %d hit for program %s at preemption bound %d", maxExec, id, b))
 			}
 			runtime.GC()
 			return fail
@@ -346,17 +359,6 @@ func bucket(n int) string {
 		return "101-1000"
 	}
 	return ">1000"
-}
-
-// c18PoolHash summarises the global pool state (sizes of the free lists) for the `states` count.
-func c18PoolHash() uint64 {
-	items := tensor.VerifIntsPoolItems()
-	var sb strings.Builder
-	for i, l := range items {
-		fmt.Fprintf(&sb, "%d:%d,", i, len(l))
-	}
-	fmt.Fprintf(&sb, "d%d", tensor.VerifDensePoolLen())
-	return core.H64(sb.String())
 }
 
 // c18RacePass: auxiliary free-running pass (binary built with -race against the real package sync). Every program is
